@@ -115,7 +115,8 @@ def run(ck):
             key = ("wf", cls)
             if fid is None and key in reported:
                 continue
-            reported.add(key)
+            if fid is None:      # a listed finding never hides a later unlisted violation of the same class
+                reported.add(key)
             ck.violation({"kind": "ir-contract-violated", "finding": fid, "class": cls, "origin": t, "diagnostics": m[:1500],
                           "wgsl": unq(s[1:-1]),
                           "how": "the module returned by parse+lower violates the IR contract (strict validator, Naga.Sem.IRValid / IRTyping)"},
